@@ -431,3 +431,156 @@ Proof.
   rewrite fold_plain by exact Hp. rewrite app_nil_r.
   rewrite rev_involutive. cbn [assemble]. apply slcat_pjoin, Hne.
 Qed.
+
+Lemma snoc_ne {A} (l : list A) x : l ++ [x] <> [].
+Proof. intros H. apply app_eq_nil in H as [_ H]. discriminate H. Qed.
+
+(* ------------------------------------------------------------------ the link paths of C16 (c) *)
+Section CfgM.
+Variable c : cfgT.
+Variables csE csL : list bytes.
+Hypothesis csE_ne : csE <> [].
+Hypothesis csE_plain : Forall plain csE.
+Hypothesis HE : c_exports c = slcat csE.
+Hypothesis csL_ne : csL <> [].
+Hypothesis csL_plain : Forall plain csL.
+Hypothesis HL : c_layers c = slcat csL.
+Hypothesis EL : at_or_under (c_exports c) (c_layers c) = false.
+Hypothesis LE : at_or_under (c_layers c) (c_exports c) = false.
+Hypothesis Hxb : plain (c_exp_binpkg c).
+Hypothesis Hxg : plain (c_exp_gen c).
+Hypothesis Hbg : c_exp_binpkg c <> c_exp_gen c.
+Hypothesis Hbin : rel_ok (c_binpkg c) = true.
+Hypothesis Hgen : rel_ok (c_gen c) = true.
+
+Notation xb := (c_exp_binpkg c).
+Notation xg := (c_exp_gen c).
+
+Definition is_link_of (n T : bytes) : Prop := T = C16.pkg_link c n \/ T = C16.gen_link c n.
+Definition is_auto_of (n A : bytes) : Prop :=
+  A = pathjoin [layer_path c n; c_binpkg c] \/ A = pathjoin [layer_path c n; c_gen c].
+
+Lemma link_nf n T : legal_name n = true -> n <> [] -> is_link_of n T ->
+  exists a, (a = xb \/ a = xg) /\ T = slcat ((csE ++ [a]) ++ [n]).
+Proof.
+  intros Hl Hne [-> | ->].
+  - exists xb. split; [now left|]. rewrite (pkg_link_nf c csE csE_ne csE_plain HE) by
+      (try assumption; apply plain_rel_ok; assumption).
+    destruct (plain_rel_ok _ Hxb) as [_ ->]. rewrite <- app_assoc. reflexivity.
+  - exists xg. split; [now right|]. rewrite (gen_link_nf c csE csE_ne csE_plain HE) by
+      (try assumption; apply plain_rel_ok; assumption).
+    destruct (plain_rel_ok _ Hxg) as [_ ->]. rewrite <- app_assoc. reflexivity.
+Qed.
+
+Lemma Ea_plain a : a = xb \/ a = xg -> Forall plain (csE ++ [a]).
+Proof.
+  intros Ha. apply Forall_app. split; [assumption|]. constructor; [|constructor].
+  destruct Ha as [-> | ->]; assumption.
+Qed.
+Lemma Ean_plain a n : a = xb \/ a = xg -> legal_name n = true -> n <> [] -> Forall plain ((csE ++ [a]) ++ [n]).
+Proof.
+  intros Ha Hl Hne. apply Forall_app. split; [apply Ea_plain, Ha|]. constructor; [|constructor].
+  apply legal_plain; assumption.
+Qed.
+
+Lemma H_dir_proof n T : legal_name n = true -> n <> [] -> is_link_of n T ->
+  exists cs, Forall plain cs /\ pathdir T = slcat cs.
+Proof.
+  intros Hl Hne HT. destruct (link_nf n T Hl Hne HT) as (a & Ha & ->).
+  exists (csE ++ [a]). split; [apply Ea_plain, Ha|].
+  apply pathdir_slcat; [destruct csE; discriminate|apply Ea_plain, Ha|apply legal_plain; assumption].
+Qed.
+
+Lemma H_abs_proof n T : legal_name n = true -> n <> [] -> is_link_of n T ->
+  pathjoin [T; []] = T /\ exists r, T = sl :: r.
+Proof.
+  intros Hl Hne HT. destruct (link_nf n T Hl Hne HT) as (a & Ha & ->).
+  assert (Hne2 : (csE ++ [a]) ++ [n] <> []) by (destruct csE; discriminate).
+  split.
+  - unfold pathjoin. cbn [filter beq negb].
+    assert (E0 : beq (slcat ((csE ++ [a]) ++ [n])) [] = false) by (apply beq_false, slcat_nonempty, Hne2).
+    rewrite E0. cbn [negb pjoin join]. apply clean_slcat; [exact Hne2|apply Ean_plain; assumption].
+  - destruct ((csE ++ [a]) ++ [n]) as [|y ys]; [congruence|]. eexists. reflexivity.
+Qed.
+
+Lemma links_not_nested n m T T' : legal_name n = true -> n <> [] -> legal_name m = true -> m <> [] ->
+  is_link_of m T -> is_link_of n T' -> at_or_under T T' = true -> T = T'.
+Proof.
+  intros Hl Hne Hlm Hnem HT HT' H.
+  destruct (link_nf m T Hlm Hnem HT) as (a & Ha & ->). destruct (link_nf n T' Hl Hne HT') as (b & Hb & ->).
+  destruct (slcat_at_or_under _ _ (snoc_ne _ _) (Ean_plain a m Ha Hlm Hnem)
+              (Ean_plain b n Hb Hl Hne) H) as [t Ht].
+  rewrite <- !app_assoc in Ht. apply app_inv_head in Ht. cbn [app] in Ht. injection Ht as -> -> _. reflexivity.
+Qed.
+
+Lemma H_PG_proof n : legal_name n = true -> n <> [] ->
+  at_or_under (C16.pkg_link c n) (C16.gen_link c n) = false
+  /\ at_or_under (C16.gen_link c n) (C16.pkg_link c n) = false.
+Proof.
+  intros Hl Hne.
+  assert (Hneq : C16.pkg_link c n <> C16.gen_link c n).
+  { destruct (link_nf n _ Hl Hne (or_introl eq_refl)) as (a & Ha & Ea).
+    rewrite (pkg_link_nf c csE csE_ne csE_plain HE), (gen_link_nf c csE csE_ne csE_plain HE)
+      by (try assumption; apply plain_rel_ok; assumption).
+    destruct (plain_rel_ok _ Hxb) as [_ ->]. destruct (plain_rel_ok _ Hxg) as [_ ->].
+    intros H. apply slcat_inj in H.
+    - apply app_inv_head in H. injection H as H. contradiction.
+    - rewrite app_assoc. apply Ean_plain; auto.
+    - rewrite app_assoc. apply Ean_plain; auto. }
+  split.
+  - destruct (at_or_under (C16.pkg_link c n) (C16.gen_link c n)) eqn:H; [|reflexivity]. exfalso. apply Hneq.
+    apply (links_not_nested n n _ _ Hl Hne Hl Hne (or_introl eq_refl) (or_intror eq_refl) H).
+  - destruct (at_or_under (C16.gen_link c n) (C16.pkg_link c n)) eqn:H; [|reflexivity]. exfalso. apply Hneq. symmetry.
+    apply (links_not_nested n n _ _ Hl Hne Hl Hne (or_intror eq_refl) (or_introl eq_refl) H).
+Qed.
+
+Lemma H_diff_proof n m T T' : legal_name n = true -> n <> [] -> legal_name m = true -> m <> [] -> n <> m ->
+  is_link_of m T -> is_link_of n T' -> at_or_under T T' = false.
+Proof.
+  intros Hl Hne Hlm Hnem Hnm HT HT'. destruct (at_or_under T T') eqn:H; [|reflexivity]. exfalso.
+  destruct (link_nf m T Hlm Hnem HT) as (a & Ha & ->). destruct (link_nf n T' Hl Hne HT') as (b & Hb & ->).
+  destruct (slcat_at_or_under _ _ (snoc_ne _ _) (Ean_plain a m Ha Hlm Hnem)
+              (Ean_plain b n Hb Hl Hne) H) as [t Ht].
+  rewrite <- !app_assoc in Ht. apply app_inv_head in Ht. cbn [app] in Ht. injection Ht as _ Hmn _. congruence.
+Qed.
+
+Lemma auto_under_L n A : legal_name n = true -> n <> [] -> is_auto_of n A -> under (c_layers c) A = true.
+Proof.
+  intros Hl Hne HA. unfold is_auto_of in HA. rewrite (layer_path_nf c csL csL_ne csL_plain HL n Hl Hne) in HA.
+  assert (P1 : Forall plain (csL ++ [n])).
+  { apply Forall_app. split; [assumption|]. constructor; [|constructor]. apply legal_plain; assumption. }
+  destruct HA as [-> | ->].
+  - rewrite (pathjoin_rel (csL ++ [n]) [c_binpkg c]);
+      [|destruct csL; discriminate|exact P1|constructor; [exact Hbin|constructor]].
+    rewrite HL, <- app_assoc. apply under_slcat; try assumption. discriminate.
+  - rewrite (pathjoin_rel (csL ++ [n]) [c_gen c]);
+      [|destruct csL; discriminate|exact P1|constructor; [exact Hgen|constructor]].
+    rewrite HL, <- app_assoc. apply under_slcat; try assumption. discriminate.
+Qed.
+
+Lemma H_auto_proof n m T A : legal_name n = true -> n <> [] -> legal_name m = true -> m <> [] ->
+  is_link_of m T -> is_auto_of n A ->
+  at_or_under T A = false /\ at_or_under A (pathdir T) = false.
+Proof.
+  intros Hl Hne Hlm Hnem HT HA.
+  pose proof (auto_under_L n A Hl Hne HA) as HuA.
+  assert (E_ne : c_exports c <> []) by (rewrite HE; apply slcat_nonempty, csE_ne).
+  assert (L_ne : c_layers c <> []) by (rewrite HL; apply slcat_nonempty, csL_ne).
+  assert (E_nr : beq (c_exports c) root = false) by (rewrite HE; apply slcat_not_root; assumption).
+  assert (L_nr : beq (c_layers c) root = false) by (rewrite HL; apply slcat_not_root; assumption).
+  destruct (link_nf m T Hlm Hnem HT) as (a & Ha & ET).
+  assert (HuT : under (c_exports c) T = true).
+  { rewrite ET, HE, <- app_assoc. apply under_slcat; try assumption. discriminate. }
+  assert (HuD : under (c_exports c) (pathdir T) = true).
+  { rewrite ET, pathdir_slcat; [|destruct csE; discriminate|apply Ea_plain, Ha|apply legal_plain; assumption].
+    rewrite HE. apply under_slcat; try assumption. discriminate. }
+  split.
+  - destruct (at_or_under T A) eqn:H; [|reflexivity]. exfalso.
+    apply (disjoint_subtrees (c_exports c) (c_layers c) A E_ne L_ne E_nr L_nr EL LE).
+    + exact (under_trans (c_exports c) T A E_ne E_nr HuT H).
+    + apply under_at_or_under, HuA.
+  - destruct (at_or_under A (pathdir T)) eqn:H; [|reflexivity]. exfalso.
+    apply (disjoint_subtrees (c_exports c) (c_layers c) (pathdir T) E_ne L_ne E_nr L_nr EL LE HuD).
+    apply under_at_or_under. exact (under_trans (c_layers c) A (pathdir T) L_ne L_nr HuA H).
+Qed.
+End CfgM.
